@@ -20,6 +20,7 @@ RULE = ('Hypothesis: documents of 1-16 inline formulas ($..$ and \\(..\\)) from 
         'table cells, and (multi-language runs) inside \\foreignlanguage / otherlanguage / after \\selectlanguage; main languages en, de, ru, fr(fallback); single- and multi-language mode. '
         'oracle: text between the two marker words of a formula == expected rendering exactly; rotation by reference counters per language collection; generated characters map inside the formula. '
         'non-trivial = at least 7 formulas in one language (wrap-around) or a formula inside an argument / footnote / foreign-language scope; distinct by source text')
+RULE += ' Additions: runs of two maths spaces at either end of a formula; the negative thin space (ignored) between delimiter and maths space.'
 ASSUMPTIONS = [
     'formulas that are empty or consist only of maths space are not generated (the statement speaks of formulas consisting of maths)',
     'unknown languages use the English collection and share its rotation (README: settings for en are the fall back)',
